@@ -18,6 +18,9 @@ Inductive mr_class :=
                (* collected into a slice that is sorted before any use, by the named comparator chain of
                   Gen_Comparators or by "strings"/"ints"  -- sorted_unique + <chain>_total /
                   sort_strings_deterministic / sort_ints_deterministic *)
+| MRSortedLater (cmpname : string)
+               (* as MRSorted, but the sort happens in a caller / callee (node lists: Graph.SortNodes in
+                  report.newTrimmedGraph; numeric tags: collapsedTags) *)
 | MRNotMap     (* resolved by hand: the operand is a slice or string *)
 | MRDiag       (* only the order of diagnostics on the UI error stream depends on it, no report byte *)
 | MROutOfScope (* not on the path of -top/-tree/-peek/-dot/-callgrind/-tags/-traces/-raw/-proto/-topproto:
@@ -45,7 +48,7 @@ Definition maprange_table : list (site * mr_class) := [
   (("internal/graph/dotgraph.go", "ComposeDot", "n.Out", 1), MRSorted "edgeList.Less");   (* gathered into an EdgeMap, then EdgeMap.Sort *)
   (("internal/graph/dotgraph.go", "builder.addNodelets", "node.LabelTags", 1), MRSorted "tags.Less/flat");  (* SortTags(ts, flatTags) *)
   (("internal/graph/dotgraph.go", "builder.addNodelets", "node.NumericTags", 1), MRFill);  (* lnts[l] per key *)
-  (("internal/graph/dotgraph.go", "builder.addNodelets", "tm", 1), MRSorted "tags.Less/flat"); (* collapsedTags sorts *)
+  (("internal/graph/dotgraph.go", "builder.addNodelets", "tm", 1), MRSortedLater "tags.Less/flat"); (* collapsedTags sorts *)
   (("internal/graph/graph.go", "EdgeMap.Sort", "e", 1), MRSorted "edgeList.Less");
   (("internal/graph/graph.go", "EdgeMap.Sum", "e", 1), MRAccum);
   (("internal/graph/graph.go", "Graph.String", "n.In", 1), MROutOfScope);         (* debug dump *)
@@ -56,7 +59,7 @@ Definition maprange_table : list (site * mr_class) := [
   (("internal/graph/graph.go", "Graph.TrimTree", "cur.Out", 1), MRFill);          (* per child: delete the in-edge *)
   (("internal/graph/graph.go", "Graph.TrimTree", "cur.Out", 2), MRFill);          (* per child: rewire to the parent; children are distinct keys *)
   (("internal/graph/graph.go", "Node.addSample", "numLabel", 1), MRFill);         (* findOrAddTag + int64 += per (formatted) tag: commutative sums *)
-  (("internal/graph/graph.go", "NodeMap.nodes", "nm", 1), MRSorted "FlatNameOrder");   (* node lists are sorted by Graph.SortNodes before selection/printing *)
+  (("internal/graph/graph.go", "NodeMap.nodes", "nm", 1), MRSortedLater "FlatNameOrder");   (* node lists are sorted by Graph.SortNodes before selection/printing *)
   (("internal/graph/graph.go", "countTags", "n.LabelTags", 1), MRAccum);
   (("internal/graph/graph.go", "countTags", "n.NumericTags", 1), MRAccum);
   (("internal/graph/graph.go", "countTags", "t", 1), MRAccum);
@@ -64,7 +67,7 @@ Definition maprange_table : list (site * mr_class) := [
   (("internal/graph/graph.go", "edgeEntropyScore", "edges", 2), MRFloat);         (* score += -frac*log2(frac) in float64 *)
   (("internal/graph/graph.go", "isRedundantEdge", "n.In", 1), MRSearch);          (* reachability *)
   (("internal/graph/graph.go", "joinLabels", "s.Label", 1), MRSorted "strings");
-  (("internal/graph/graph.go", "newTree", "parentNodeMap", 1), MRSorted "FlatNameOrder");
+  (("internal/graph/graph.go", "newTree", "parentNodeMap", 1), MRSortedLater "FlatNameOrder");
   (("internal/graph/graph.go", "selectNodesForGraph", "n.In", 1), MRFill);
   (("internal/graph/graph.go", "selectNodesForGraph", "n.Out", 1), MRFill);
   (("internal/graph/graph.go", "trimLowFreqTags", "tags", 1), MRFill);
@@ -136,9 +139,34 @@ Definition is_float (c : mr_class) : bool := match c with MRFloat => true | _ =>
 (* the comparators a "sorted before use" site may name *)
 Definition sorted_by_known (names : list string) (c : mr_class) : bool :=
   match c with
-  | MRSorted n => String.eqb n "strings" || String.eqb n "ints" || existsb (String.eqb n) names
+  | MRSorted n | MRSortedLater n => String.eqb n "strings" || String.eqb n "ints" || existsb (String.eqb n) names
   | _ => true
   end.
+
+(* a function with k sites classified "sorted before use" (that still exist in the source) must
+   contain at least k sorting calls (sort.X, x.Sort(), SortTags, SortNodes, sortedKeysN: the
+   generated sort_sites) *)
+Definition is_sorted_class (c : mr_class) : bool := match c with MRSorted _ => true | _ => false end.
+Definition same_fn (f g f' g' : string) : bool := String.eqb f f' && String.eqb g g'.
+Definition sorted_sites_in (gen : list (string * string * string * Z * string)) (f g : string) : nat :=
+  List.length (filter (fun e => let '(f', g', _, _) := fst e in
+                                same_fn f g f' g' && is_sorted_class (snd e)
+                                && existsb (fun x => let '(s, _) := x in
+                                      let '(f1, g1, e1, n1) := s in let '(f2, g2, e2, n2) := fst e in
+                                      String.eqb f1 f2 && String.eqb g1 g2 && String.eqb e1 e2 && (n1 =? n2)) gen)
+                      maprange_table).
+Definition sort_calls_in (sort_sites : list (string * string * string)) (f g : string) : nat :=
+  List.length (filter (fun s => let '(f', g', _) := s in same_fn f g f' g') sort_sites).
+Definition sorted_site_has_sort_call (gen : list (string * string * string * Z * string))
+           (sort_sites : list (string * string * string)) (e : site * mr_class) : bool :=
+  match snd e with
+  | MRSorted _ => let '(f, g, _, _) := fst e in Nat.leb (sorted_sites_in gen f g) (sort_calls_in sort_sites f g)
+  | _ => true
+  end.
+
+(* only the entries of the table that still exist in the source are obligations *)
+Definition site_exists (gen : list (string * string * string * Z * string)) (s : site) : bool :=
+  existsb (fun g => site_eqb (fst g) s) gen.
 
 (* the sort.* call sites: which ordering each uses *)
 Definition sort_site_table : list ((string * string * string) * string) := [
@@ -167,6 +195,9 @@ Definition sort_site_table : list ((string * string * string) * string) := [
   (("profile/profile.go", "numLabelsToString", "sort.Strings(ls)"), "strings")
 ].
 
+Definition is_sort_pkg_call (c : string) : bool := String.prefix "sort." c || String.prefix "slices." c.
+
 Definition sort_site_known (s : string * string * string) : bool :=
   let '(f, g, c) := s in
+  negb (is_sort_pkg_call c) ||
   existsb (fun e => let '(f', g', c') := fst e in String.eqb f f' && String.eqb g g' && String.eqb c c') sort_site_table.
